@@ -111,14 +111,16 @@ impl Check for C03 {
     }
 
     fn run(&self, run: &Run) {
-        let q = run.tier.quick();
+        let deep = !run.tier.quick();
+        let q = false;
         run.rule("scenes = destination pattern x clip/layer context x one drawing call (route, blend mode, source, global alpha); every call of every scene is a transition checked pixel by pixel against M-PIX on the pixel's own inputs; non-trivial = at least one checked pixel had partial coverage or partial clip coverage");
         run.assume("blend formulas are sw_composite's public per-pixel primitives; where coverage and clip coverage are combined the model admits both 'multiply then weight' and sw_composite's combined primitives (over_in_in / alpha_lerp) for partial weights, and demands exactly blend(src,dst) at full weight and the previous value at zero weight");
         run.assume("shape coverage is the alpha of an opaque-white reference fill of the same shape on a fresh target (validated by C01/C04/C08); clip coverage is read from the clip stack through the verification hook (validated against its model by C05)");
         let (w, h) = (12, 4);
         let vals: &[u32] = if q { &VALS6 } else { &VALS12 };
-        let alphas: &[f32] = if q { &ALPHAS_Q } else { &ALPHAS };
-        let rots: Vec<usize> = if q { vec![0] } else { vec![0, 5] };
+        let deep_alphas = [0.0, 1.0 / 255.0, 0.1, 0.25, 0.5, 0.75, 0.999, 1.0];
+        let alphas: &[f32] = if deep { &deep_alphas } else { &ALPHAS };
+        let rots: Vec<usize> = if deep { (0..12).collect() } else { vec![0, 5] };
         let ctxs = contexts(w, h, q);
         let srcs = sources(vals, w, h, q);
 
